@@ -161,3 +161,34 @@ Definition contrib_ok (S1 A : nat) (c : contrib) : Prop :=
   (c_s c < S1)%nat /\ (c_s1 c < S1)%nat /\ (c_a c < A)%nat /\ 0 <= c_p c.
 Definition contrib_okb (S1 A : nat) (c : contrib) : bool :=
   (c_s c <? S1)%nat && (c_s1 c <? S1)%nat && (c_a c <? A)%nat && Qle_bool 0 (c_p c).
+
+(* ------------------------------------------------------------------ AMDP: what the derived MDP must be *)
+(* Written as filtered sums over the contribution list (no tables, no updates): a contribution counts
+   when its mass differs from 0 by more than 1e-6; the row (a,s) of the derived MDP is the counted mass
+   per successor bucket divided by the ACCUMULATED counted mass of (a,s); the reward is the counted
+   p*r divided by that same mass.  An (a,s) without counted mass is absorbing with reward 0. *)
+Definition c_counts (c : contrib) : bool := negb (eqSmall 0 (c_p c)).
+Definition c_at (a s : nat) (c : contrib) : bool := c_counts c && (c_a c =? a)%nat && (c_s c =? s)%nat.
+Definition amdp_mass (cs : list contrib) (a s : nat) : Q := qsum (map c_p (filter (c_at a s) cs)).
+Definition amdp_cell (cs : list contrib) (a s s1 : nat) : Q :=
+  qsum (map c_p (filter (fun c => c_at a s c && (c_s1 c =? s1)%nat) cs)).
+Definition amdp_rsum (k : kind) (cs : list contrib) (a s : nat) : Q :=
+  qsum (map (fun c => c_p c * c_r c)
+            (filter (fun c => c_at a s c && match k with Dense => true | Sparse => negb (eqSmall 0 (c_r c)) end) cs)).
+Definition amdp_spec_T (cs : list contrib) (a s s1 : nat) : Q :=
+  if Qle_bool (amdp_mass cs a s) epsS then (if (s =? s1)%nat then 1 else 0)
+  else amdp_cell cs a s s1 / amdp_mass cs a s.
+Definition amdp_spec_R (k : kind) (cs : list contrib) (a s : nat) : Q :=
+  if Qle_bool (amdp_mass cs a s) epsS then 0
+  else match k with
+       | Dense => amdp_rsum k cs a s / amdp_mass cs a s
+       | Sparse => if eqSmall (amdp_rsum k cs a s) 0 then amdp_rsum k cs a s
+                   else amdp_rsum k cs a s / amdp_mass cs a s
+       end.
+Definition qcloseb (tol x y : Q) : bool := Qle_bool (qabs (x - y)) tol.
+(* T' is [a][s][s1], R' is [s][a] (as dumped) *)
+Definition amdp_spec_okb (k : kind) (tol : Q) (S1 A : nat) (cs : list contrib) (T' : list mat) (R' : mat) : bool :=
+  forallb (fun a => forallb (fun s =>
+      qcloseb tol (nthq (row R' s) a) (amdp_spec_R k cs a s) &&
+      forallb (fun s1 => qcloseb tol (nthq (row (nth a T' []) s) s1) (amdp_spec_T cs a s s1)) (seq 0 S1))
+    (seq 0 S1)) (seq 0 A).
